@@ -88,6 +88,10 @@ EXTRA = {
  "C19": ("", "; no command handler decides an object's visibility by comparing the wall clock with its deadline (GET agrees with SCAN, COUNT and STATS at every instant)", None),
  "C20": ("; static call closure from the fence evaluation entry", "; no function reachable from the fence evaluation reads a stored *collection.Collection (the collection a fence searches is looked up in the keyspace when the fence is evaluated)", None),
 }
+EXTRA5 = {'C02': '; the index search is conditioned only on the query rectangle; every return of the quantiser hands back the rounded-down lower and the rounded-up upper corner', 'C03': '; every socket write of buffered replies is preceded by the dirty test or a flush under the lock, and the log buffer and file are written only under the exclusive lock', 'C05': '; field lists are persistent (no function of internal/field writes into memory of an existing list); a variable whose address the live-fence queue retains is not reused across loop iterations', 'C07': "; the repository's own lock implementations acquire only by a guarded compare-and-swap (spin lock) or reach only the matching sync.RWMutex method (wrapper)", 'C08': '; every write of the log buffer and of the log file happens under the exclusive lock, also in the background flusher and through a local that holds the handle', 'C09': '; the live log receives a command whether or not a rewrite is running', 'C10': '; no statement stores through the shared retention default (a package-level pointer) or a local alias of it', 'C12': '; Value.Equals is the equality of the order (derived from Less)', 'C13': '; every return of the quantiser hands back the rounded-down lower and the rounded-up upper corner, so an index box contains the box it stands for', 'C14': '; a variable whose address writeAOF retains for the live-fence queue is declared in the iteration that fills it', 'C15': "; the caught-up state the read gate consults is set only where the follower's position was compared with the leader's log size", 'C16': '; a message is handed on by the pipeline reader only where it is known to have an argument', 'C17': '; an object kept for a search reply has its field names recorded on every path (JSON and RESP print the same fields)', 'C19': '; the index search is never skipped on derived state; the previous object is removed from every index before the new one is entered (anchored on Collection.Set/Delete by role)', 'C20': '; the per-candidate callback of the roaming neighbour search never ends the search; positional accessors on the previous object are dominated by a spatial test'}
+for _pid, _d in EXTRA5.items():
+    _t0, _d0, _n0 = EXTRA.get(_pid, ('', '', None))
+    EXTRA[_pid] = (_t0, _d0 + _d, _n0)
 for _pid, (_t, _d, _n) in EXTRA.items():
     _tech, _dec, _not = CLAIMED[_pid]
     CLAIMED[_pid] = (_tech + _t, _dec + _d, _n if _n else _not)
